@@ -4,6 +4,7 @@ import (
 	"bytes"
 	"context"
 	"encoding/base64"
+	"encoding/json"
 	"errors"
 	"fmt"
 	"net/http"
@@ -34,15 +35,18 @@ func init() {
 		"resume with offset -1 when the registry holds exactly one byte is excluded by the property (the Range header cannot tell 0 from 1 byte): the harness uses the explicit offset there",
 		"the harness reads the registry's true upload offset through the backend (ocimem) only to decide which oracle applies, never to help the client",
 	}
-	for _, k := range []string{"mem", "http1", "http2", "http1+debug"} {
+	for _, k := range []string{"mem", "http1", "http2", "http1+debug", "unify", "unify+http1"} {
 		kind := k
 		w := 2
 		if kind == "http1" {
 			w = 4
 		}
-		register(&core.Scenario{Name: "c04-clean-" + kind, Property: "C04", Weight: w, Run: func(env *core.Env) { c04(env, kind, false) }})
-		if kind != "mem" {
-			register(&core.Scenario{Name: "c04-faults-" + kind, Property: "C04", Weight: w, Run: func(env *core.Env) { c04(env, kind, true) }})
+		// ociunify runs its member calls in goroutines: those stacks run inside the
+		// deterministic scheduler
+		bubble := strings.HasPrefix(kind, "unify")
+		register(&core.Scenario{Name: "c04-clean-" + kind, Property: "C04", Weight: w, Bubble: bubble, LeakIsViolation: bubble, Run: func(env *core.Env) { c04(env, kind, false) }})
+		if kind != "mem" && kind != "unify" {
+			register(&core.Scenario{Name: "c04-faults-" + kind, Property: "C04", Weight: w, Bubble: bubble, LeakIsViolation: bubble, Run: func(env *core.Env) { c04(env, kind, true) }})
 		}
 	}
 }
@@ -50,6 +54,13 @@ func init() {
 // rawUploadID peels the proxy layers off an upload ID until the backend's own id remains.
 func rawUploadID(id string) string {
 	for i := 0; i < 4; i++ {
+		// ociunify: base64(JSON [id of member 0, id of member 1])
+		if b, err := base64.RawURLEncoding.DecodeString(id); err == nil && len(b) > 0 && b[0] == '[' {
+			var ids []string
+			if json.Unmarshal(b, &ids) == nil && len(ids) == 2 {
+				return ids[0]
+			}
+		}
 		u, err := url.Parse(id)
 		if err != nil || !strings.Contains(u.Path, "/blobs/uploads/") {
 			return id
@@ -132,7 +143,10 @@ func (r *c04run) recoverSession(why string) int64 {
 
 func c04(env *core.Env, kind string, faulty bool) {
 	c := env.C
-	r := &c04run{env: env, ctx: context.Background(), direct: kind == "mem"}
+	r := &c04run{env: env, ctx: context.Background(), direct: kind == "mem" || kind == "unify"}
+	if !strings.Contains(kind, "mem") && !strings.HasPrefix(kind, "unify") {
+		kind = "mem+" + kind
+	}
 	o := &stackOpts{Kind: kind, OneByte: c.Bool("onebyte", 1, 8), EOFData: c.Bool("eofdata", 1, 4)}
 	maxFaults := 0
 	if faulty {
@@ -414,7 +428,11 @@ func c04(env *core.Env, kind string, faulty bool) {
 
 	// the committed blob is exactly the content, on the backend and through the stack
 	r.faults = 0
-	for i, rg := range []ociregistry.Interface{r.st.Mem, r.st.Reg} {
+	views := []ociregistry.Interface{r.st.Mem, r.st.Reg}
+	if r.st.Mem1 != nil {
+		views = append(views, r.st.Mem1) // both members of a unified registry hold the blob
+	}
+	for i, rg := range views {
 		br, err := rg.GetBlob(r.ctx, r.repo, dig)
 		if err != nil {
 			env.Failf("C04/final/missing", "GetBlob after a successful commit failed (via %d): %v", i, err)
